@@ -4,6 +4,7 @@ import (
 	"context"
 	"fmt"
 	"os"
+	"sort"
 	"strings"
 	"syscall"
 	"testing"
@@ -194,6 +195,33 @@ func runExecutorTimeline(t *testing.T, tl *timeline, exitCode int32) (out execut
 			wired = newWiredRig(tl, clk)
 		}
 
+		launched := false
+		launch := func() {
+			if launched {
+				return
+			}
+			launched = true
+			stalls := append([]int(nil), tl.ConsumerStall...)
+			go func() {
+				for {
+					if len(stalls) > 0 {
+						// The worker is busy (e.g. synchronizing with
+						// the scheduler) before it takes the next
+						// update: Execute() waits in its send.
+						time.Sleep(time.Duration(stalls[0]) * unit)
+						stalls = stalls[1:]
+					}
+					if _, ok := <-updates; !ok {
+						return
+					}
+				}
+			}()
+			go func() {
+				defer close(done)
+				defer close(updates)
+				out.response = executor.Execute(outerCtx, nil, nil, digestFunction, request, updates)
+			}()
+		}
 		for _, ev := range tl.Events {
 			if delta := start.Add(time.Duration(ev.T) * unit).Sub(time.Now()); delta > 0 {
 				time.Sleep(delta)
@@ -222,16 +250,10 @@ func runExecutorTimeline(t *testing.T, tl *timeline, exitCode int32) (out execut
 			case "outer_cancel":
 				// The worker cancels the context it handed to Execute().
 				outerCancel()
+			case "launch":
+				launch()
 			case "create":
-				go func() {
-					for range updates {
-					}
-				}()
-				go func() {
-					defer close(done)
-					defer close(updates)
-					out.response = executor.Execute(outerCtx, nil, nil, digestFunction, request, updates)
-				}()
+				launch()
 				// Everything up to runner.Run() takes no (fake) time.
 				synctest.Wait()
 				if !runner.started {
@@ -377,6 +399,7 @@ func TestC11ExecutorTimeout(t *testing.T) {
 		tl.Via = rapid.SampledFrom([]string{"exit", "exit", "ioerror"}).Draw(rt, "executorVia")
 		exitCode := int32(rapid.IntRange(0, 3).Draw(rt, "exitCode"))
 		genOuterCancel(rt, tl)
+		genConsumerStall(rt, tl)
 		out, failure := runExecutorTimeline(t, tl, exitCode)
 		if failure != "" {
 			rt.Fatalf("%s; script=%s", failure, tl)
@@ -391,6 +414,41 @@ func TestC11ExecutorTimeout(t *testing.T) {
 		labels, nontrivial := classify(tl, x)
 		labels = relabelCancelled(labels, classifyCancel(tl, out, x))
 		labels = append(labels, "via:"+tl.Via, "status:"+status.FromProto(out.response.Status).Code().String())
+		if len(tl.ConsumerStall) == 2 {
+			if tl.ConsumerStall[0] > 0 {
+				labels = append(labels, "worker-slow-to-take-fetching-inputs-update")
+			}
+			if tl.ConsumerStall[1] > 0 {
+				labels = append(labels, "worker-slow-to-take-running-update")
+			}
+		}
 		rec.Case(tl, nontrivial, labels...)
 	})
+}
+
+// genConsumerStall draws how long the consumer of the execution state
+// updates lets Execute() wait before it takes the first two updates, and
+// moves the call of Execute() that much ahead of Create (event "launch"),
+// so that the command starts at Create as the reference model assumes.
+// Not combined with an outer cancellation at or before Create (Execute()
+// would return before it reaches the runner).
+func genConsumerStall(rt *rapid.T, tl *timeline) {
+	if tl.OuterCancel != nil && *tl.OuterCancel <= tl.Create {
+		return
+	}
+	maxStall := tl.Create
+	if maxStall > 4 {
+		maxStall = 4
+	}
+	if maxStall == 0 || rapid.IntRange(0, 2).Draw(rt, "consumerStalls") == 0 {
+		return
+	}
+	total := rapid.IntRange(1, maxStall).Draw(rt, "consumerStallTotal")
+	first := rapid.IntRange(0, total).Draw(rt, "consumerStallFirst")
+	tl.ConsumerStall = []int{first, total - first}
+	at := tl.Create - total
+	pos := sort.Search(len(tl.Events), func(i int) bool { return tl.Events[i].T >= at })
+	tl.Events = append(tl.Events, event{})
+	copy(tl.Events[pos+1:], tl.Events[pos:])
+	tl.Events[pos] = event{T: at, Kind: "launch"}
 }
